@@ -490,6 +490,23 @@ func (e *Engine) builtin(fr *Frame, b *ssa.Builtin, args []Value) Value {
 				o.Val = &MapV{}
 			}
 			return nil
+		case Slice:
+			if x.Len > 0 {
+				var et types.Type
+				if sig, ok := b.Type().(*types.Signature); ok && sig.Params().Len() == 1 {
+					if st, ok := sig.Params().At(0).Type().Underlying().(*types.Slice); ok {
+						et = st.Elem()
+					}
+				}
+				if et == nil {
+					e.unsupported("clear: cannot determine the element type")
+				}
+				a := e.st.arrayForWrite(x.Arr)
+				for i := 0; i < x.Len; i++ {
+					a.E[x.Off+i] = zeroValue(et)
+				}
+			}
+			return nil
 		}
 	case "ssa:wrapnilchk":
 		p := args[0].(Ptr)
